@@ -172,7 +172,9 @@ def run(facts, tr, rep):
                "the deadline is timeout_source.get_timeout(&req) of this request" if is_request_timeout(dur) else
                "the deadline is %s, not get_timeout(&req)" % show(peel(tr.expand(dur, upvars=True))))
         # awaited directly
-        aw = [a for a in gd_.awaits() if a.poll_bb is not None and peel(tr.expand(tr.operand(bd, a.awaitee, (a.into_bb, len(gd_.stmts(a.into_bb)))))) == ("call", bd.crate.name, bd.def_, c.bb)]
+        # (the awaitee may be chosen among several timers first: `match deadline { Some(d) => timeout_at(d, f), None => timeout(t, f) }.await`)
+        aw = [a for a in gd_.awaits() if a.poll_bb is not None and
+              any(peel(x) == ("call", bd.crate.name, bd.def_, c.bb) for x in leaves(peel(tr.expand(tr.operand(bd, a.awaitee, (a.into_bb, len(gd_.stmts(a.into_bb))))))))]
         rep.ob("C06.CANCEL", skey(b, "timeout#%d|awaited" % n), len(aw) == 1, c.where(),
                "the Timeout future is awaited in place" if len(aw) == 1 else "the Timeout future is not awaited in place")
     # ---------------------------------------------------------------- NO-CANCEL
